@@ -632,6 +632,7 @@ func main() {
 		return
 	}
 	run := ev.Start("C20")
+	defer run.Guard()
 	run.Rule("case = (generation, directory tree, target form); trees: all multisets of <=3 entries per level over {generated file, manifest, user .go, other file, empty dir, nested dir} to depth D (exhaustive), " +
 		"plus PRNG trees to depth 3 including symlinks and directories named like generated files; each tree is built on disk, every entry fingerprinted (inode, mode, size, mtime, ctime, sha256), the real CleanTargetDir run on it " +
 		"(absolute target, current directory, missing target) and the result compared with the ownership model; then cleaned again (idempotence). Regeneration cases run the real generator in child processes into populated directories. " +
